@@ -219,6 +219,18 @@ theorem load_good_file (ln : Line) (rest : List Line) (hg : ∀ l ∈ ln :: rest
     loadAll (ln :: rest) = (((runs (ln :: rest)).filterMap entryOfRun).map some, .ok) :=
   loadAll_good ln rest hg h0
 
+/-- A writer that fails in the middle of a `Write` leaves a torn last line
+    (`step w .tear`).  Whatever decodable lines precede it: every entry is
+    reported — the last one as if it were complete, although `Store` may have
+    written only part of it — and then `Err()` is non-nil.  (A copy of an
+    export that is cut inside a line is such a file.  Cut exactly between two
+    lines it is simply a shorter valid file: the format has no trailer.) -/
+theorem torn_output_ends_in_error (ls : List Line) (hg : ∀ l ∈ ls, l.body.good = true)
+    (h0 : ∀ ln rest, ls = ln :: rest → ln.ref ≠ 0) :
+    loadAll (ls ++ [tornLine]) = (((runs ls).filterMap entryOfRun).map some, .err) ∧
+    (step ⟨{}, ls⟩ .tear).1.out = ls ++ [tornLine] :=
+  ⟨loadAll_torn ls hg h0, rfl⟩
+
 /-- `A B A`: three entries, the first and the third carrying the same ref. -/
 example :
     loadAll [⟨1, "a", "f", .vuln ⟨0, 0⟩⟩, ⟨2, "b", "f", .vuln ⟨1, 0⟩⟩, ⟨1, "a", "f", .vuln ⟨2, 0⟩⟩] =
